@@ -5,6 +5,9 @@
 (* state of the models handed to it).                                      *)
 (*                                                                         *)
 (* A model pair m carries an estimate state est[m]; <<>> is the reset      *)
+(* state.  Kinds: "fb" feedback, "ff" feedforward, "fb0" feedback with no   *)
+(* measurement inside the span.                                            *)
+(* A model pair m carries an estimate state est[m]; <<>> is the reset      *)
 (* state.  What a run computes is a symbolic term of its arguments and of  *)
 (* the estimate state it STARTS from; both filters begin with              *)
 (* reset_estimates() (filters.py:277-278, 437-441), so with Resets = TRUE  *)
@@ -24,7 +27,9 @@ Init == est = [m \in Models |-> <<>>] /\ runs = <<>> /\ pokes = 0
 Run(k, d, m) ==
   /\ Len(runs) < MaxRuns
   /\ LET prior  == IF Resets THEN <<>> ELSE est[m]
-         result == <<k, d, prior>>
+         \* "fb0" is a feedback run without any measurement inside the span: started from reset estimates it IS plain
+         \* strapdown integration of the data set (C12 clause 1), whatever the model objects went through before
+         result == IF k = "fb0" /\ prior = <<>> THEN <<"plain", d>> ELSE <<k, d, prior>>
      IN /\ runs' = Append(runs, [kind |-> k, data |-> d, model |-> m, result |-> result])
         /\ est' = [est EXCEPT ![m] = <<"after", k, d, prior>>]
   /\ UNCHANGED pokes
@@ -44,6 +49,8 @@ Spec == Init /\ [][Next]_vars
 RunsIndependent ==
   \A i, j \in 1..Len(runs) :
      (runs[i].kind = runs[j].kind /\ runs[i].data = runs[j].data) => runs[i].result = runs[j].result
+\* a data-free feedback run is transparent also when it re-uses model objects that carry estimates
+TransparentRerun == \A i \in 1..Len(runs) : runs[i].kind = "fb0" => runs[i].result = <<"plain", runs[i].data>>
 \* a run leaves its own estimates behind (the only permitted side effect)
 LeavesEstimates == \A m \in Models :
      (\E i \in 1..Len(runs) : runs[i].model = m) => est[m] # <<>>
